@@ -165,6 +165,12 @@ def st_pipeline(draw):
         ev = E.make(k, kind, ts, tags, content)
         if draw(st.integers(0, 5)) == 0:
             ev["sig"] = "00" * 64
+        if draw(st.integers(0, 7)) == 0:
+            # claims to be written by the relay itself (the service pubkey is public); the signature cannot fit
+            from coincurve import PrivateKey
+
+            ev = dict(ev, pubkey=PrivateKey(bytes.fromhex(bootstrap.SERVICE_SK)).public_key_xonly.format().hex(),
+                      kind=draw(st.sampled_from([1, 31494])))
         evs.append(ev)
         if draw(st.integers(0, 3)) == 0:
             # the same id again with other contents (after the original was ephemeral, deleted or is still there)
@@ -191,7 +197,8 @@ class Pipelines(Sub):
         nt = False
         cfgobj = Cfg(**case["cfg"])
         clock = H.Clock(NOW)
-        async with H.Rig(backend, validators=[VAL + v for v in case["validators"]], config=case["cfg"], clock=clock) as rig:
+        async with H.Rig(backend, validators=[VAL + v for v in case["validators"]],
+                         config=dict(case["cfg"], service_privatekey=bootstrap.SERVICE_SK), clock=clock) as rig:
             w = rig.conn("10.0.0.9")
             await w.send(["REQ", "w", {"since": 1}])
             seen = set()
@@ -344,6 +351,24 @@ class Lists(Sub):
                     if want["deny"] is not None and got_deny != want["deny"]:
                         viol.append(V("deny-list-content", "the deny list holds exactly the p-tagged pubkeys of the configured queries",
                                       round=rnd, got=sorted(got_deny), want=sorted(want["deny"])))
+                    # the validator's decision over the lists it was given
+                    if not viol:
+                        from aionostr.event import Event
+                        from nostr_relay.errors import StorageError
+
+                        for pk in E.PKS:
+                            should_reject = bool((got_allow and pk not in got_allow) or (got_deny and pk in got_deny))
+                            try:
+                                dynamic_lists.is_pubkey_allowed(Event(**E.free("cc" * 32, pk, 1, E.T0, [])), None)
+                                rejected = False
+                            except StorageError:
+                                rejected = True
+                            if rejected != should_reject:
+                                viol.append(V("dynamic-list-decision:%s" % ("wrongly-accepted" if should_reject else "wrongly-rejected"),
+                                              "a pubkey is admitted iff it is on a non-empty allow list and not on the deny list",
+                                              pubkey=pk[:8], on_allow=pk in got_allow, on_deny=pk in got_deny,
+                                              allow_size=len(got_allow), deny_size=len(got_deny)))
+                                break
                     if viol or rnd == 1:
                         break
                     # change the store (delete some events) and refresh again with the same builder
